@@ -659,7 +659,7 @@ func newUniverse(r *core.R) *universe {
 			}
 			if dualStack {
 				ipc, hc, ip6 := hostIPs[h][0], h, host6[h][1]
-				e.variants = append(e.variants, variant{desc: ipc + " " + ip6, mk: func() interface{} {
+				e.variants = append(e.variants, variant{desc: "DELTA of variant 1 (IPv6 address only): " + ipc + " " + ip6, deltaOf: 1, mk: func() interface{} {
 					return &internalapi.Node{ObjectMeta: metav1.ObjectMeta{Name: hc}, Spec: internalapi.NodeSpec{BGP: &internalapi.NodeBGPSpec{IPv4Address: ipc + "/24", IPv6Address: ip6 + "/64"}}}
 				}})
 			}
@@ -674,6 +674,18 @@ func newUniverse(r *core.R) *universe {
 				em := &entity{key: model.HostConfigKey{Hostname: h, Name: "VXLANTunnelMACAddr"}, name: "hostconfig/" + h + "/VXLANTunnelMACAddr", kind: "hostconfig"}
 				em.variants = append(em.variants, variant{desc: "mac", mk: func() interface{} { return "66:aa:bb:cc:dd:0" + string('1'+byte(len(h)%7)) }})
 				add(em)
+				if dualStack && src.Chance(600, "vtep6") {
+					// the IPv6 half of the tunnel endpoint (only with it does the VTEP carry the node's IPv6 address)
+					ea6 := &entity{key: model.HostConfigKey{Hostname: h, Name: "IPv6VXLANTunnelAddr"}, name: "hostconfig/" + h + "/IPv6VXLANTunnelAddr", kind: "hostconfig"}
+					for _, ip := range []string{"dead:beef:9::100", "dead:beef:9::200"} {
+						ipc := ip
+						ea6.variants = append(ea6.variants, variant{desc: ip, mk: func() interface{} { return ipc }})
+					}
+					add(ea6)
+					em6 := &entity{key: model.HostConfigKey{Hostname: h, Name: "VXLANTunnelMACAddrV6"}, name: "hostconfig/" + h + "/VXLANTunnelMACAddrV6", kind: "hostconfig"}
+					em6.variants = append(em6.variants, variant{desc: "mac6", mk: func() interface{} { return "66:aa:bb:cc:ee:0" + string('1'+byte(len(h)%7)) }})
+					add(em6)
+				}
 			}
 		}
 	}
